@@ -105,6 +105,14 @@ pub enum Fault {
     Stall { at: usize, latency: u64 },
     /// EVERY read of `path` fails (a bad sector, a permission problem: faults that do not go away)
     ReadErrAlways { path: String, kind: IoKind },
+    /// the existence tests answer unusually, but legally for an `Fs` that is not a POSIX disk:
+    /// "dir_always" (a flat key/value store in which every prefix "is a directory"),
+    /// "file_always" (is_file says yes to everything; the read then decides),
+    /// "dir_is_file" (is_file also says yes to directories; reading one fails)
+    StatLies { mode: String },
+    /// `canonicalize` succeeds with an unusual answer: "relative" (leading slash dropped),
+    /// "empty", "fresh" (an equivalent but different spelling on every call), "nonutf8"
+    CanonOdd { mode: String },
 }
 
 impl Fault {
@@ -117,6 +125,8 @@ impl Fault {
             Fault::Content { what, .. } => what.kind().into(),
             Fault::Stall { .. } => "stall".into(),
             Fault::ReadErrAlways { kind, .. } => format!("read_err_always({})", kind.name()),
+            Fault::StatLies { mode } => format!("stat_lies({})", mode),
+            Fault::CanonOdd { mode } => format!("canon_odd({})", mode),
         }
     }
     /// true if the fault alters file *contents* (then evaluation fuel is not a verdict)
@@ -246,6 +256,8 @@ impl Fault {
             Fault::Content { path, what } => json!({"fault":"content","path":path,"what":what.to_json()}),
             Fault::Stall { at, latency } => json!({"fault":"stall","at":at,"latency":latency}),
             Fault::ReadErrAlways { path, kind } => json!({"fault":"read_err_always","path":path,"kind":kind.name()}),
+            Fault::StatLies { mode } => json!({"fault":"stat_lies","mode":mode}),
+            Fault::CanonOdd { mode } => json!({"fault":"canon_odd","mode":mode}),
         }
     }
     pub fn from_json(v: &Value) -> Option<Self> {
@@ -258,6 +270,8 @@ impl Fault {
             "content" => Fault::Content { path: v.get("path")?.as_str()?.to_string(), what: ContentFault::from_json(v.get("what")?)? },
             "stall" => Fault::Stall { at: at()?, latency: v.get("latency")?.as_u64()? },
             "read_err_always" => Fault::ReadErrAlways { path: v.get("path")?.as_str()?.to_string(), kind: IoKind::parse(v.get("kind")?.as_str()?)? },
+            "stat_lies" => Fault::StatLies { mode: v.get("mode")?.as_str()?.to_string() },
+            "canon_odd" => Fault::CanonOdd { mode: v.get("mode")?.as_str()?.to_string() },
             _ => return None,
         })
     }
